@@ -7,6 +7,7 @@ import Sylvia.Model.Reply
 import Sylvia.Model.Facts
 import Sylvia.Model.Validate
 import Sylvia.Model.QueryResponses
+import Sylvia.Model.Domain
 /-! Driver operations over the current program. -/
 namespace Driver
 open Sylvia Gen
@@ -100,6 +101,16 @@ def opDew (st : State) (rest : String) : String :=
       | .ok i v fs => if trailing then "err" else "ok " ++ ((ps[i]?.map (·.label)).getD "?") ++ " " ++ (Serde.encodeEnum ((ps[i]?.map (·.variants)).getD []) v fs).render
       | r => Dispatch.wrapErrText r
     | some _, none => "err"
+    | _, _ => "bad-op"
+  | _ => "bad-op"
+
+/-- is the document in the domain of `C03.wrapper_iff_on_domain`? (trailing characters: the text is not one document) -/
+def opDom (st : State) (rest : String) : String :=
+  match splitN rest 2 with
+  | [kind, json] =>
+    match kindOfWord kind, parseJsonPrefix json with
+    | some k, some (d, trailing) => if trailing then "out" else if Serde.inDomainB (Gen.parts k (progOf st)) d then "in" else "out"
+    | some _, none => "out"
     | _, _ => "bad-op"
   | _ => "bad-op"
 
@@ -536,6 +547,7 @@ def step (st : State) (line : String) : State × Option String :=
   | "lists" => (st, some (opLists st rest))
   | "de" => (st, some (opDe st rest))
   | "dew" => (st, some (opDew st rest))
+  | "dom" => (st, some (opDom st rest))
   | "disp" => (st, some (opDisp st rest))
   | "entry" => (st, some (opDisp st rest))
   | "ser" => (st, some (opSer st rest))
